@@ -1040,6 +1040,43 @@ def r16_9(rep: Report, idx: Index) -> None:
         else:
             rep.ok(rid, construct, f'arithmetic on session[{key[:40]}]',
                    f'{len(stores.get(key, []))} store(s) under the same key, none of None')
+    # one counter, one key: every access to the session whose key is built from the same leading
+    # literal (f'error-{..}') spells the key the same way - a reset under a differently formatted key
+    # silently resets nothing
+    families: dict[str, dict[str, list[tuple[str, ast.AST]]]] = {}
+    for rel in rep.repo.py_files('dashlive/server'):
+        tree = rep.repo.tree(rel)
+        for fn in [n for n in ast.walk(tree) if isinstance(n, (ast.FunctionDef, ast.AsyncFunctionDef))]:
+            for n in ast.walk(fn):
+                k = None
+                if isinstance(n, ast.Subscript) and norm(n.value) == 'flask.session':
+                    k = n.slice
+                elif isinstance(n, ast.Call) and call_name(n) in (
+                        'flask.session.get', 'flask.session.pop', 'flask.session.setdefault') and n.args:
+                    k = n.args[0]
+                if k is None:
+                    continue
+                if isinstance(k, ast.Name):
+                    defs = [a for a in ast.walk(fn) if isinstance(a, ast.Assign) and norm(a.targets[0]) == k.id]
+                    if len(defs) == 1:
+                        k = defs[0].value
+                if isinstance(k, ast.JoinedStr) and k.values and isinstance(k.values[0], ast.Constant) \
+                        and len(k.values) > 1:
+                    families.setdefault(k.values[0].value, {}).setdefault(norm(k), []).append((f'{rel}::{fn.name}', n))
+    for lead, forms in families.items():
+        if len(forms) == 1:
+            form, sites = next(iter(forms.items()))
+            rep.ok(rid, sites[0][0], f'one spelling of session key {lead}*', f'{len(sites)} access(es) as {form}')
+            continue
+        major = max(forms.items(), key=lambda kv: len(kv[1]))[0]
+        for form, sites in forms.items():
+            if form == major:
+                continue
+            for construct, node in sites:
+                rep.fail(rid, construct, f'one spelling of session key {lead}*',
+                         f'`{short(node, 60)}` addresses the session with {form} while the other accesses of '
+                         f'this counter use {major}: for some values these are different keys, so a reset or '
+                         'read silently misses the stored value', node, file=construct.split('::')[0])
     if not reads:
         raise AnalysisError('no arithmetic on flask.session values found (the error counter moved?)')
 
